@@ -62,6 +62,19 @@ CHECKS = {
         "assumptions": ["the reference precedence-climbing parser (harness/pkg/sql/parser/c03.go) states the documented ladder; when it rejects, nothing is asserted"],
         "runs": parruns(["VxC03_Expr4", "VxC03_Ops5", "VxC03_Clauses", "VxC03_SetOps"], ["VxC03_Expr5", "VxC03_Ops7", "VxC03_Clauses", "VxC03_SetOps"], []),
     },
+    "C06": {
+        "bounds": {"quick": "expression shapes: every accepted WHERE-expression of <= 4 symbolic tokens over the 16-row operator table and <= 3 tokens over the 30-row table: AST.SQL() -> real tokenizer -> real parser gives a structurally equal tree and the same text again; 23 statement templates (joins, USING, IS NOT NULL, NOT EXISTS, IN/BETWEEN/LIKE, explicit parentheses, GROUP/HAVING/ORDER/NULLS/LIMIT/OFFSET, window frame with offset, CTE, UNION ALL, CASE, CAST, DISTINCT, INSERT/UPDATE/DELETE, derived table, unary minus, FOR UPDATE) with symbolic two-letter identifiers, plain and double-quoted (all 676 spellings per name on one path; reserved words found by the solver); gosqlx.Format on 6 statements with symbolic options (indent 0..4, keyword case, semicolon, line limit): re-parse equality and idempotence",
+                   "thorough": "<= 4 tokens over the 30-row table"},
+        "outside": "pkg/formatter.Format and the CLI SQLFormatter (third serialiser); DDL / MERGE serialisation; expression windows longer than the bound; comments",
+        "assumptions": ["tree equality is compared on canonical dumps, case-insensitively (keyword and operator words)"],
+        "runs": [
+            {"pkg": "pkg/gosqlx", "harness": "VxC06_Expr4", "args": {"replace": "context.WithTimeout=VxTimeoutCtx"}, "expect_asserts": ["C06.same_tree"]},
+            {"pkg": "pkg/gosqlx", "harness": "VxC06_ExprFull3", "args": {"replace": "context.WithTimeout=VxTimeoutCtx"}},
+            {"pkg": "pkg/gosqlx", "harness": "VxC06_Templates", "args": {"replace": "context.WithTimeout=VxTimeoutCtx"}, "expect_asserts": ["C06.t_same_tree"]},
+            {"pkg": "pkg/gosqlx", "harness": "VxC06_Format", "args": {"replace": "context.WithTimeout=VxTimeoutCtx"}, "expect_asserts": ["C06.format_idempotent", "C06.format_same_tree"]},
+            {"pkg": "pkg/gosqlx", "harness": "VxC06_ExprFull4", "tiers": ["thorough"], "args": {"replace": "context.WithTimeout=VxTimeoutCtx"}, "thorough": {"timeout": 7200}},
+        ],
+    },
     "C07": {
         "bounds": {"quick": "low-level entry points (Parse, ParseContext, ParseWithPositions, ParseWithRecovery) on every stream of <= 3 symbolic tokens (150-row table) at statement start, after SELECT, after SELECT a FROM t WHERE and after '; SELECT a FROM t ;', EOF-terminated, with at least one non-semicolon token; strict mode symbolic for <= 2 tokens; convenience layer: 11 SQL texts (valid, invalid, stray/leading semicolons, tokenizer failures, comments) through gosqlx.Parse/ParseBytes/ParseWithContext/ParseWithTimeout/Validate/ParseWithRecovery and parser.ParseBytes/Validate/ParseBytesWithTokens; every batch of <= 3 of those texts through ParseMultiple / ValidateMultiple",
                    "thorough": "<= 4 symbolic tokens in each context"},
